@@ -186,10 +186,13 @@ pub fn scan<V: Vary>(
     let dv_dx = {
         let dx0 = r0.0.x() - l0.0.x();
         let dx1 = r1.0.x() - l1.0.x();
+        // A trapezoid of zero width has no horizontal gradient; dividing
+        // by its width would make every varying 0 * inf = NaN
+        let recip = |dx: f32| if dx != 0.0 { dx.recip() } else { 0.0 };
         if dx0 * dx0 >= dx1 * dx1 {
-            l0.dv_dt(r0, dx0.recip())
+            l0.dv_dt(r0, recip(dx0))
         } else {
-            l1.dv_dt(r1, dx1.recip())
+            l1.dv_dt(r1, recip(dx1))
         }
     };
 
